@@ -450,7 +450,7 @@ instance decFreshHead (s : Sys F) (e : Ev) :
   match e with
   | .reload _ _ outs =>
     decidable_of_iff (FreshOuts s.links outs) ⟨fun h _ _ _ he => by cases he; exact h, fun h => h _ _ _ rfl⟩
-  | .client _ _ | .uplink _ _ _ | .flush _ | .hk _ | .setCfg _ | .crit _ | .failNext _ | .failBind _
+  | .client _ _ | .uplink _ _ _ | .flush _ | .hk _ | .setCfg _ | .crit _ | .failNext _ | .failAfter _ _ | .failBind _
   | .stamp _ _ _ _ _ | .syncTimeout => isTrue (fun _ _ _ he => nomatch he)
 
 /-- `FreshRun` of a concrete run from a concrete state is decidable (used by the examples). -/
